@@ -187,6 +187,7 @@ type job struct {
 	attempt int
 	inv2    *Inv
 	defs    bool // a split job that has published its chunk definitions and not finished yet
+	local   bool // a job of a stage that runs locally whatever the job mode: it dies with mrp
 }
 
 type Driver struct {
@@ -386,11 +387,17 @@ func (d *Driver) hook(ev string, kv ...string) {
 	d.tr.Emit(ev, args...)
 }
 
-func (d *Driver) exec(vj *core.VerifJob) {
+// execLocal: a job of a stage called with `local = true` (or a preflight stage in cluster
+// mode), handed over by the local job manager (core.VerifLocalExec)
+func (d *Driver) execLocal(vj *core.VerifJob) { d.execJob(vj, true) }
+
+func (d *Driver) exec(vj *core.VerifJob) { d.execJob(vj, false) }
+
+func (d *Driver) execJob(vj *core.VerifJob, local bool) {
 	d.mu.Lock()
 	defer d.mu.Unlock()
 	key, ok := d.jobKey(vj.MetadataPath)
-	j := &job{vj: vj, key: key}
+	j := &job{vj: vj, key: key, local: local}
 	if ok {
 		j.inv = d.byKey[key]
 	}
@@ -402,7 +409,7 @@ func (d *Driver) exec(vj *core.VerifJob) {
 	d.jobs = append(d.jobs, j)
 	d.res.Execs[key+"#submit"]++
 	d.tr.Emit("JobSubmitted", "job", key, "known", j.inv != nil, "md", d.rel(vj.MetadataPath))
-	if d.spec.MaxJobs > 0 {
+	if d.spec.MaxJobs > 0 && !local {
 		d.inflight++
 		d.tr.Emit("ClusterSubmit", "job", key, "inflight", d.inflight, "limit", d.spec.MaxJobs)
 	}
@@ -951,7 +958,7 @@ func (d *Driver) end(j *job) {
 		}
 	}
 	j.ended = true
-	if d.spec.MaxJobs > 0 {
+	if d.spec.MaxJobs > 0 && !j.local {
 		d.mu.Lock()
 		d.inflight--
 		d.mu.Unlock()
@@ -1171,11 +1178,13 @@ func (d *Driver) findJob(key string, begun bool) int {
 func Run(spec *Spec, workdir string) (res *Result) {
 	util.SetPrintLogger(devNull{})
 	res = &Result{Name: spec.Name, Execs: map[string]int{}, Ended: map[string]string{}}
+	defer func() { core.VerifLocalExec = nil }()
 	d := &Driver{spec: spec, tr: &Trace{}, res: res, byKey: map[string]*Inv{},
 		forks: map[string]core.VerifForkInfo{}, psid: "ps",
 		filePath: map[string]string{}, fileJob: map[string]string{}, extras: map[string]string{}, aliasOf: map[string]string{}, outsideOf: map[string]bool{},
 		tmps: map[string]string{}, reported: map[string]string{}, goid: goid(), jrng: rand.New(rand.NewSource(spec.Sched.Seed + 7)),
 		gates: map[string][]chan struct{}{}}
+	core.VerifLocalExec = d.execLocal
 	for i := range spec.Invs {
 		d.byKey[spec.Invs[i].Key()] = &spec.Invs[i]
 	}
@@ -1340,7 +1349,7 @@ func Run(spec *Spec, workdir string) (res *Result) {
 		d.mu.Lock()
 		for _, j := range d.jobs {
 			if !j.ended {
-				if spec.MaxJobs > 0 {
+				if spec.MaxJobs > 0 && !j.local {
 					continue // a cluster job lives on; the restarted mrp re-attaches to it
 				}
 				if j.begun && spec.Orphans {
